@@ -64,7 +64,7 @@ func compareOrder(c *mon.Case, key, what string, got, want []string) bool {
 func TestC20(t *testing.T) {
 	r := mon.Start(t, "C20")
 	defer r.Close()
-	R := r.Pick(4, 12)
+	R := r.Pick(4, 10)
 	for _, f := range fileFixtures(newRand(r.SeedFor("fixtures")), !r.Quick()) {
 		f := f
 		r.Case("file/"+f.Name, map[string]any{"fixture": f.Name, "root": f.Root.String()}, func(c *mon.Case) {
@@ -270,7 +270,7 @@ func TestC20(t *testing.T) {
 		})
 	}
 	// path traversals: blocks along the path in root-to-target order
-	for i := 0; i < r.Pick(10, 100); i++ {
+	for i := 0; i < r.Pick(30, 500); i++ {
 		i := i
 		r.Case(fmt.Sprintf("tree/%d", i), map[string]any{"tree": i}, func(c *mon.Case) {
 			root := genTree(c.Rand(), 3, true)
